@@ -233,3 +233,42 @@ M("vroom-descend-one-short", "PyXAB/algos/VROOM.py", "        while h < self.h_m
 M("vroom-sample-from-sibling", "PyXAB/algos/VROOM.py", "        return node.sample_uniform()\n\n    def rank", "        return (node.get_parent().get_children()[0] if self.iteration % 7 == 0 else node).sample_uniform()\n\n    def rank", ["C13", "C04"])
 M("vroom-index-shift", "PyXAB/algos/VROOM.py", "        idx = index[sample]\n", "        idx = index[sample if sample % 5 else max(sample - 1, 0)]\n", ["C13"])
 M("vroom-stale-rank", "PyXAB/algos/VROOM.py", "            self.rank(node_list[h])\n", "            if h != 3 or self.iteration < 12:\n                self.rank(node_list[h])\n", ["C13"])
+
+# ---- reproducibility / isolation / input mutation (C14)
+M("zooming-class-level-dicts", "PyXAB/algos/Zooming.py", "        self.active_points = {}\n        self.pulled_times = {}\n        self.average_rewards = {}\n",
+  "", ["C14"], more=[("class Zooming(Algorithm):\n", "class Zooming(Algorithm):\n    active_points = {}\n    pulled_times = {}\n    average_rewards = {}\n")])
+M("zooming-set-iteration", "PyXAB/algos/Zooming.py", "for arm in self.active_points.keys():", "for arm in set(self.active_points.keys()):", ["C14"])
+M("node-normalises-domain-in-place", "PyXAB/partition/Node.py", "        for x in self.domain:\n            point.append((x[0] + x[1]) / 2)",
+  "        for x in self.domain:\n            x[0], x[1] = float(x[0]), float(x[1])\n            point.append((x[0] + x[1]) / 2)", ["C14"])
+M("binary-python-random", "PyXAB/partition/BinaryPartition.py", "dim = np.random.randint(0, len(parent_domain))", "import random\n        dim = random.randrange(len(parent_domain))", ["C14"])
+M("node-cpoint-class-cache", "PyXAB/partition/Node.py", "        self.c_point = point\n", "        self.c_point = P_node._cache.setdefault((depth, index, len(domain)), point) if depth >= 3 else point\n", ["C14", "C01", "C16"],
+  more=[("class P_node:\n", "class P_node:\n    _cache = {}\n")])
+M("gpo-class-level-lists", "PyXAB/algos/GPO.py", "        self.V_x = []\n        self.V_reward = []\n", "", ["C14"], more=[("class GPO(Algorithm):\n", "class GPO(Algorithm):\n    V_x = []\n    V_reward = []\n")])
+M("partition-sorts-domain", "PyXAB/partition/Partition.py", "        self.domain = domain\n", "        domain.sort(key=lambda iv: iv[1] - iv[0], reverse=True)\n        self.domain = domain\n", ["C14"])
+M("hoo-wallclock-tiebreak", "PyXAB/algos/HOO.py", "                if child.get_b_value() >= maxchild.get_b_value():", "                if child.get_b_value() > maxchild.get_b_value() or (child.get_b_value() == maxchild.get_b_value() and id(child) % 64 < 32):", ["C14"])
+
+# ---- time labels and queries (C15)
+M("hct-iteration-from-time", "PyXAB/algos/HCT.py", "        self.curr_node, self.path = self.optTraverse()\n", "        self.iteration = max(time, 1) if time else self.iteration\n        self.curr_node, self.path = self.optTraverse()\n", ["C15"])
+M("zooming-time-from-label", "PyXAB/algos/Zooming.py", "        self.time += 1\n", "        self.time = time\n", ["C15"])
+M("gpo-phase-start-by-label", "PyXAB/algos/GPO.py", "            if self.counter == 0:\n                rho",
+  "            if (time - 1) % (2 * self.half_phase_length) == 0:\n                rho", ["C15"])
+M("hct-threshold-by-pull-count", "PyXAB/algos/HCT.py", "        t_plus = compute_t_plus(self.iteration)\n        delta_tilde = np.minimum(1.0 / 2, self.c1 * self.delta / t_plus)",
+  "        self.npulls = getattr(self, 'npulls', 0) + 1\n        t_plus = compute_t_plus(self.npulls)\n        delta_tilde = np.minimum(1.0 / 2, self.c1 * self.delta / t_plus)", ["C15"])
+M("hoo-rounds-from-time", "PyXAB/algos/HOO.py", "        curr_node, self.path = self.optTraverse()\n        return curr_node.get_cpoint()", "        if time > self.rounds:\n            self.rounds = time\n        curr_node, self.path = self.optTraverse()\n        return curr_node.get_cpoint()", ["C15"])
+M("poo-query-advances-cursor", "PyXAB/algos/POO.py", "        point = self.V_algo[max_param].pull(time=0)\n        return point", "        point = self.V_algo[max_param].pull(time=0)\n        self.counter = 0 if self.counter else self.counter\n        self.curr_algo = self.V_algo[max_param]\n        return point", [])
+M("sequool-stop-by-time", "PyXAB/algos/SequOOL.py", "        if self.curr_depth <= self.h_max:\n            if self.curr_depth == 0:", "        if self.curr_depth <= self.h_max and t >= 1:\n            if self.curr_depth == 0:", ["C15"])
+M("vroom-seed-from-time", "PyXAB/algos/VROOM.py", "        sample = np.random.choice(", "        if time == 0:\n            np.random.seed(0)\n        sample = np.random.choice(", ["C15"])
+M("zooming-query-marks-arm", "PyXAB/algos/Zooming.py", "        return self.pull(0)", "        p = self.pull(0)\n        self.pulled_times[self.best_arm] += 0 if self.time % 5 else 1\n        return p", ["C15"])
+
+# ---- affine equivariance (C16)
+M("hoo-tiebreak-by-abs-coordinate", "PyXAB/algos/HOO.py", "                if child.get_b_value() >= maxchild.get_b_value():",
+  "                if child.get_b_value() > maxchild.get_b_value() or (child.get_b_value() == maxchild.get_b_value() and abs(child.get_cpoint()[0]) >= abs(maxchild.get_cpoint()[0])):", ["C16"])
+M("doo-delta-absolute", "PyXAB/algos/DOO.py", "max((domain[0][0] - point) ** 2, (domain[0][1] - point) ** 2)\n                >= max_value",
+  "max((domain[0][0] - point) ** 2, (domain[0][1] - point) ** 2) + 1e-3 * abs(point)\n                >= max_value", [])
+M("doo-delta-absolute-value", "PyXAB/algos/DOO.py", "                max_value = max(\n                    (domain[0][0] - point) ** 2, (domain[0][1] - point) ** 2\n                )",
+  "                max_value = max(\n                    (domain[0][0] - point) ** 2, (domain[0][1] - point) ** 2\n                ) * (1 + abs(point))", ["C16"])
+M("kary-rounded-boundaries", "PyXAB/partition/KaryPartition.py", "boundary_points = np.linspace(selected_dim[0], selected_dim[1], num=self.K + 1)",
+  "boundary_points = np.round(np.linspace(selected_dim[0], selected_dim[1], num=self.K + 1), 9)", ["C16", "C02"])
+M("zooming-absolute-eps", "PyXAB/algos/Zooming.py", "                        point[dim] < child_domain[dim][0]\n", "                        point[dim] < child_domain[dim][0] + 1e-7\n", ["C16", "C11"])
+M("stosoo-prefers-positive-side", "PyXAB/algos/StoSOO.py", "                                <= node_list[h][j].get_b_value()\n", "                                <= node_list[h][j].get_b_value() + (0.05 if node_list[h][j].get_cpoint()[0] > 0 else 0)\n", ["C16"])
+M("sequool-centre-unit-box", "PyXAB/algos/SequOOL.py", "            self.curr_node = node_list[0][0]\n            return node_list[0][0].get_cpoint()", "            self.curr_node = node_list[0][0]\n            return [0.5 for _ in node_list[0][0].get_cpoint()]", ["C16", "C12"])
